@@ -102,6 +102,10 @@ class ExecBase:
             v.loc = ('field', name, ref)
         if not self.spec_mode:
             self.assume_type(v)
+        elif ty.kind == 'list':
+            self.assume(ty.sort().len(term) >= 0)     # true of every list, whatever the heap
+        elif ty.kind == 'dict':
+            self.assume(ty.sort().n(term) >= 0)
         return v
 
     def write_field(self, ref, name: str, val: V):
@@ -110,6 +114,7 @@ class ExecBase:
         ty = self.field_ty(name)
         val = coerce(val, ty)
         self.st.heap[name] = z3.Store(self.heap_arr(name), ref, to_smt(val))
+        self.st.flags['heap_version'] = self.st.flags.get('heap_version', 0) + 1
 
     def read_loc(self, loc) -> V:
         k = loc[0]
